@@ -19,7 +19,7 @@ CONSTANTS
   Bad = bad
   Unknown = unk
   MaxNest <- NestTC
-  MaxMap = 2
+  MaxMap = 1
 VIEW View
 INVARIANT TypeOK
 INVARIANT CallIsolation
